@@ -1,8 +1,558 @@
 //! Verification hook (compiled only with `--cfg quinn_rs_quinn_verif`).
+//!
+//! Components: `flow_recv` (C06) and, through [`interp`], `stream_sm` (C11). Both drive one real
+//! `StreamsState` through the application API (`Streams`, `RecvStream`, `SendStream`, `Chunks`)
+//! and the frame/ack entry points used by `Connection`, with a hook-owned `Retransmits` playing
+//! the role of `spaces[Data].pending`.
+//!
+//! Every observation is `[r0, r1, r2, r3, r4] ++ G ++ S ++ L`:
+//!   `r0..r4` result of the op (unused slots 0);
+//!   `G` (22 values) global probe:
+//!     data_recvd, local_max_data, receive_window, shrink_debt, sent_max_data,
+//!     max_remote[bi], max_remote[uni], sent_max_remote[bi], [uni], allocated_remote_count[bi], [uni],
+//!     next_remote[bi], [uni], next_reported_remote[bi], [uni], next[bi], [uni], send_streams,
+//!     free_recv.len(), pending.max_data, pending.max_stream_id[bi], [uni];
+//!   `S` (14 values, only for ops naming a stream id) stream probe:
+//!     recv slot (0 absent, 1 None, 2 Free, 3 Open), recv state tag (0 Recv size unknown, 1 Recv size
+//!     known, 2 ResetRecvd), final size | -1, reset code | -1, sent_max_stream_data, end, bytes_read,
+//!     stopped, send slot (0 absent, 1 None, 2 Some), send state (0 Ready, 1 DataSent{false},
+//!     2 DataSent{true}, 3 ResetSent), stop_reason | -1, offset, fin_pending,
+//!     id in pending.max_stream_data;
+//!   `L` variable-length list (control frames / stream frames), only for ops 7 and 15.
+//!
+//! Ops (transport error codes are the RFC 9000 values: 3 FLOW_CONTROL, 4 STREAM_LIMIT,
+//! 5 STREAM_STATE, 6 FINAL_SIZE, 1 INTERNAL):
+//!   [0, side, max_remote_uni, max_remote_bi, receive_window, stream_receive_window,
+//!       peer_max_bi, peer_max_uni]                     create (must be op 0)          -> [0]
+//!   [1, id, offset, len, fin]   STREAM frame  `received`        -> [0, should_transmit] | [1, code]
+//!   [2, id, code, final]        RESET_STREAM  `received_reset`  -> [0, should_transmit] | [1, code]
+//!   [3, id, ordered, budget]    `RecvStream::read` then `Chunks::next(remaining)` until `budget`
+//!                               bytes were returned or a non-data result, then `finalize`
+//!        -> [1] ClosedStream | [2] IllegalOrderedRead
+//!         | [0, bytes, term, code, should_transmit]  term: 0 budget used up, 1 Blocked, 2 finished, 3 Reset(code)
+//!   [4, id, code]               `RecvStream::stop`              -> [0] | [1] ClosedStream
+//!   [5, id]                     `RecvStream::received_reset`    -> [0, 0] None | [0, 1, code] | [1] ClosedStream
+//!   [6, w]                      `set_receive_window` (+ Connection's `pending.max_data = true` when expanded) -> [0, expanded]
+//!   [7, f_max_data, f_msd, f_max_streams]  `write_control_frames`; the flags first re-queue
+//!                               MAX_DATA / MAX_STREAM_DATA of every stream id seen so far / MAX_STREAMS
+//!                               as a lost packet's retransmits would
+//!        -> [0, n] .. L = n sorted triples (1, v, 0) MAX_DATA | (2, id, v) MAX_STREAM_DATA |
+//!                        (3, dir, v) MAX_STREAMS | (4, id, final) RESET_STREAM | (5, id, code) STOP_SENDING
+//!   [8, dir]                    `Streams::open`                 -> [0, id] | [1]
+//!   [9, dir]                    `Streams::accept`               -> [0, id] | [1]
+//!   [10, id, len]               `SendStream::write`             -> [0, n] | [1] Blocked | [2, code] Stopped | [3] ClosedStream
+//!   [11, id]                    `SendStream::finish`            -> [0] | [2, code] | [3]
+//!   [12, id, code]              `SendStream::reset`             -> [0] | [3]
+//!   [13, id]                    `SendStream::stopped`           -> [0, 0] | [0, 1, code] | [3]
+//!   [14, id, code]              STOP_SENDING  `received_stop_sending` -> [0]
+//!   [15]                        `write_stream_frames` (1 MiB budget); frames appended to the sent log
+//!        -> [0, n] .. L = n sorted quadruples (id, start, end, fin)
+//!   [16, k]                     ack of sent-log entry k mod len (`received_ack_of`), once per entry
+//!        -> [0, id, start, end, fin] | [2] empty log | [3] entry already acked or lost
+//!   [17, id]                    `reset_acked`                   -> [0]
+//!   [18]                        `poll`  -> [0] none | [1, dir] Opened | [2, id] Readable | [3, id] Writable
+//!                                        | [4, id] Finished | [5, id, code] Stopped | [6, dir] Available
+//!   [19, k]                     loss of sent-log entry k mod len (`retransmit`) -> as 16
 #![allow(missing_docs, dead_code, unused_imports, unreachable_pub, clippy::all)]
 use super::{Ops, Outs};
+use crate::connection::spaces::{Retransmits, ThinRetransmits};
+use crate::connection::stats::FrameStats;
+use crate::connection::streams::state::StreamRecv;
+use crate::connection::streams::{
+    ReadError, ReadableError, RecvStream, SendState, SendStream, StreamEvent, Streams,
+    StreamsState,
+};
+use crate::connection::{FinishError, State as ConnState, WriteError};
+use crate::frame::{self, Frame};
+use crate::transport_parameters::TransportParameters;
+use crate::{Dir, Side, StreamId, VarInt};
+use bytes::Bytes;
 
-/// Interpret `ops` for component `comp`; `None` if `comp` is not served by this module.
-pub(crate) fn run(_comp: &str, _ops: &Ops) -> Option<Outs> {
-    None
+fn vi(x: i128) -> VarInt {
+    VarInt::from_u64(x as u64).unwrap_or(VarInt::MAX)
+}
+
+fn dir_of(x: i128) -> Dir {
+    if x == 0 { Dir::Bi } else { Dir::Uni }
+}
+
+struct Ctx {
+    st: StreamsState,
+    pending: Retransmits,
+    conn: ConnState,
+    seen: Vec<StreamId>,
+    /// sent STREAM frames: (meta, 0 in flight | 1 acked | 2 lost)
+    log: Vec<(frame::StreamMeta, u8)>,
+}
+
+impl Ctx {
+    fn global(&self) -> Vec<i128> {
+        let p = self.st.verif_probe();
+        let s = &self.st;
+        vec![
+            p[0],
+            p[1],
+            p[2],
+            p[3],
+            p[4],
+            s.max_remote[0] as i128,
+            s.max_remote[1] as i128,
+            p[5],
+            p[6],
+            s.allocated_remote_count[0] as i128,
+            s.allocated_remote_count[1] as i128,
+            s.next_remote[0] as i128,
+            s.next_remote[1] as i128,
+            s.next_reported_remote[0] as i128,
+            s.next_reported_remote[1] as i128,
+            s.next[0] as i128,
+            s.next[1] as i128,
+            s.send_streams as i128,
+            s.free_recv.len() as i128,
+            self.pending.max_data as i128,
+            self.pending.max_stream_id[0] as i128,
+            self.pending.max_stream_id[1] as i128,
+        ]
+    }
+
+    fn stream(&self, id: StreamId) -> Vec<i128> {
+        let mut v = Vec::with_capacity(14);
+        let recv_fields = |r: &super::super::Recv, slot: i128| -> Vec<i128> {
+            let p = r.verif_probe();
+            vec![
+                slot,
+                p[0],
+                p[1],
+                p[2],
+                p[3],
+                r.end as i128,
+                r.assembler.bytes_read() as i128,
+                r.stopped as i128,
+            ]
+        };
+        match self.st.recv.get(&id) {
+            None => v.extend([0, 0, -1, -1, 0, 0, 0, 0]),
+            Some(None) => v.extend([1, 0, -1, -1, 0, 0, 0, 0]),
+            Some(Some(StreamRecv::Free(r))) => v.extend(recv_fields(r, 2)),
+            Some(Some(StreamRecv::Open(r))) => v.extend(recv_fields(r, 3)),
+        }
+        match self.st.send.get(&id) {
+            None => v.extend([0, 0, -1, 0, 0]),
+            Some(None) => v.extend([1, 0, -1, 0, 0]),
+            Some(Some(s)) => v.extend([
+                2,
+                match s.state {
+                    SendState::Ready => 0,
+                    SendState::DataSent { finish_acked: false } => 1,
+                    SendState::DataSent { finish_acked: true } => 2,
+                    SendState::ResetSent => 3,
+                },
+                s.stop_reason.map_or(-1, |c| c.into_inner() as i128),
+                s.offset() as i128,
+                s.fin_pending as i128,
+            ]),
+        }
+        v.push(self.pending.max_stream_data.contains(&id) as i128);
+        v
+    }
+
+    fn see(&mut self, id: StreamId) {
+        if !self.seen.contains(&id) {
+            self.seen.push(id);
+        }
+    }
+}
+
+fn res(r: &[i128]) -> Vec<i128> {
+    let mut v = r.to_vec();
+    v.resize(5, 0);
+    v
+}
+
+fn terr(e: crate::TransportError) -> Vec<i128> {
+    res(&[1, u64::from(e.code) as i128])
+}
+
+pub(super) fn interp(ops: &Ops) -> Outs {
+    let mut outs = Outs::new();
+    let Some(cfg) = ops.first() else {
+        return outs;
+    };
+    if cfg[0] != 0 || cfg.len() < 8 {
+        return vec![vec![-1]; ops.len()];
+    }
+    let side = if cfg[1] == 0 { Side::Client } else { Side::Server };
+    let mut st = StreamsState::new(side, vi(cfg[2]), vi(cfg[3]), 1 << 40, vi(cfg[4]), vi(cfg[5]));
+    st.set_params(&TransportParameters {
+        initial_max_streams_bidi: vi(cfg[6]),
+        initial_max_streams_uni: vi(cfg[7]),
+        initial_max_data: vi(1 << 40),
+        initial_max_stream_data_uni: vi(1 << 30),
+        initial_max_stream_data_bidi_local: vi(1 << 30),
+        initial_max_stream_data_bidi_remote: vi(1 << 30),
+        ..TransportParameters::default()
+    });
+    let mut cx = Ctx {
+        st,
+        pending: Retransmits::default(),
+        conn: ConnState::Established,
+        seen: Vec::new(),
+        log: Vec::new(),
+    };
+    {
+        let mut o = res(&[0]);
+        o.extend(cx.global());
+        outs.push(o);
+    }
+    for op in &ops[1..] {
+        let a = |i: usize| -> i128 { op.get(i).copied().unwrap_or(0) };
+        let sid = StreamId::from(vi(a(1)));
+        let mut names_stream = true;
+        let mut list: Vec<i128> = Vec::new();
+        let r: Vec<i128> = match op[0] {
+            1 => {
+                cx.see(sid);
+                let len = a(3) as usize;
+                let f = frame::Stream {
+                    id: sid,
+                    offset: a(2) as u64,
+                    fin: a(4) != 0,
+                    data: Bytes::from(vec![0u8; len]),
+                };
+                match cx.st.received(f, len) {
+                    Ok(t) => {
+                        if t.should_transmit() {
+                            cx.pending.max_data = true;
+                        }
+                        res(&[0, t.should_transmit() as i128])
+                    }
+                    Err(e) => terr(e),
+                }
+            }
+            2 => {
+                cx.see(sid);
+                let f = frame::ResetStream {
+                    id: sid,
+                    error_code: vi(a(2)),
+                    final_offset: vi(a(3)),
+                };
+                match cx.st.received_reset(f) {
+                    Ok(t) => {
+                        if t.should_transmit() {
+                            cx.pending.max_data = true;
+                        }
+                        res(&[0, t.should_transmit() as i128])
+                    }
+                    Err(e) => terr(e),
+                }
+            }
+            3 => {
+                cx.see(sid);
+                let mut rs = RecvStream {
+                    id: sid,
+                    state: &mut cx.st,
+                    pending: &mut cx.pending,
+                };
+                let x = match rs.read(a(2) != 0) {
+                    Err(ReadableError::ClosedStream) => res(&[1]),
+                    Err(ReadableError::IllegalOrderedRead) => res(&[2]),
+                    Ok(mut chunks) => {
+                        let mut remaining = a(3) as usize;
+                        let mut total = 0usize;
+                        let mut term = 0;
+                        let mut code = 0i128;
+                        let mut steps = 0;
+                        while remaining > 0 {
+                            steps += 1;
+                            if steps > 100_000 {
+                                term = 9;
+                                break;
+                            }
+                            match chunks.next(remaining) {
+                                Ok(Some(c)) => {
+                                    total += c.bytes.len();
+                                    remaining -= c.bytes.len();
+                                }
+                                Ok(None) => {
+                                    term = 2;
+                                    break;
+                                }
+                                Err(ReadError::Blocked) => {
+                                    term = 1;
+                                    break;
+                                }
+                                Err(ReadError::Reset(c)) => {
+                                    term = 3;
+                                    code = c.into_inner() as i128;
+                                    break;
+                                }
+                            }
+                        }
+                        let t = chunks.finalize();
+                        res(&[0, total as i128, term, code, t.should_transmit() as i128])
+                    }
+                };
+                x
+            }
+            4 => {
+                cx.see(sid);
+                let mut rs = RecvStream {
+                    id: sid,
+                    state: &mut cx.st,
+                    pending: &mut cx.pending,
+                };
+                match rs.stop(vi(a(2))) {
+                    Ok(()) => res(&[0]),
+                    Err(_) => res(&[1]),
+                }
+            }
+            5 => {
+                cx.see(sid);
+                let mut rs = RecvStream {
+                    id: sid,
+                    state: &mut cx.st,
+                    pending: &mut cx.pending,
+                };
+                match rs.received_reset() {
+                    Ok(None) => res(&[0, 0]),
+                    Ok(Some(c)) => res(&[0, 1, c.into_inner() as i128]),
+                    Err(_) => res(&[1]),
+                }
+            }
+            6 => {
+                names_stream = false;
+                let expanded = cx.st.set_receive_window(vi(a(1)));
+                if expanded {
+                    cx.pending.max_data = true;
+                }
+                res(&[0, expanded as i128])
+            }
+            7 => {
+                names_stream = false;
+                if a(1) != 0 {
+                    cx.pending.max_data = true;
+                }
+                if a(2) != 0 {
+                    for id in cx.seen.clone() {
+                        cx.pending.max_stream_data.insert(id);
+                    }
+                }
+                if a(3) != 0 {
+                    cx.pending.max_stream_id = [true, true];
+                }
+                let mut buf = Vec::new();
+                let mut retransmits = ThinRetransmits::default();
+                let mut stats = FrameStats::default();
+                cx.st.write_control_frames(
+                    &mut buf,
+                    &mut cx.pending,
+                    &mut retransmits,
+                    &mut stats,
+                    1 << 20,
+                );
+                let mut frames: Vec<[i128; 3]> = Vec::new();
+                if !buf.is_empty() {
+                    for f in frame::Iter::new(Bytes::from(buf)).unwrap() {
+                        match f {
+                            Ok(Frame::MaxData(v)) => frames.push([1, v.into_inner() as i128, 0]),
+                            Ok(Frame::MaxStreamData { id, offset }) => {
+                                frames.push([2, u64::from(id) as i128, offset as i128])
+                            }
+                            Ok(Frame::MaxStreams { dir, count }) => {
+                                frames.push([3, dir as i128, count as i128])
+                            }
+                            Ok(Frame::ResetStream(r)) => frames.push([
+                                4,
+                                u64::from(r.id) as i128,
+                                r.final_offset.into_inner() as i128,
+                            ]),
+                            Ok(Frame::StopSending(s)) => frames.push([
+                                5,
+                                u64::from(s.id) as i128,
+                                s.error_code.into_inner() as i128,
+                            ]),
+                            Ok(_) => frames.push([8, 0, 0]),
+                            Err(_) => frames.push([9, 0, 0]),
+                        }
+                    }
+                }
+                frames.sort();
+                for f in &frames {
+                    list.extend_from_slice(f);
+                }
+                res(&[0, frames.len() as i128])
+            }
+            8 => {
+                names_stream = false;
+                let mut s = Streams {
+                    state: &mut cx.st,
+                    conn_state: &cx.conn,
+                };
+                match s.open(dir_of(a(1))) {
+                    Some(id) => {
+                        cx.see(id);
+                        res(&[0, u64::from(id) as i128])
+                    }
+                    None => res(&[1]),
+                }
+            }
+            9 => {
+                names_stream = false;
+                let mut s = Streams {
+                    state: &mut cx.st,
+                    conn_state: &cx.conn,
+                };
+                match s.accept(dir_of(a(1))) {
+                    Some(id) => {
+                        cx.see(id);
+                        res(&[0, u64::from(id) as i128])
+                    }
+                    None => res(&[1]),
+                }
+            }
+            10 => {
+                let mut s = SendStream {
+                    id: sid,
+                    state: &mut cx.st,
+                    pending: &mut cx.pending,
+                    conn_state: &cx.conn,
+                };
+                match s.write(&vec![0u8; a(2) as usize]) {
+                    Ok(n) => res(&[0, n as i128]),
+                    Err(WriteError::Blocked) => res(&[1]),
+                    Err(WriteError::Stopped(c)) => res(&[2, c.into_inner() as i128]),
+                    Err(WriteError::ClosedStream) => res(&[3]),
+                }
+            }
+            11 => {
+                let mut s = SendStream {
+                    id: sid,
+                    state: &mut cx.st,
+                    pending: &mut cx.pending,
+                    conn_state: &cx.conn,
+                };
+                match s.finish() {
+                    Ok(()) => res(&[0]),
+                    Err(FinishError::Stopped(c)) => res(&[2, c.into_inner() as i128]),
+                    Err(FinishError::ClosedStream) => res(&[3]),
+                }
+            }
+            12 => {
+                let mut s = SendStream {
+                    id: sid,
+                    state: &mut cx.st,
+                    pending: &mut cx.pending,
+                    conn_state: &cx.conn,
+                };
+                match s.reset(vi(a(2))) {
+                    Ok(()) => res(&[0]),
+                    Err(_) => res(&[3]),
+                }
+            }
+            13 => {
+                let s = SendStream {
+                    id: sid,
+                    state: &mut cx.st,
+                    pending: &mut cx.pending,
+                    conn_state: &cx.conn,
+                };
+                match s.stopped() {
+                    Ok(None) => res(&[0, 0]),
+                    Ok(Some(c)) => res(&[0, 1, c.into_inner() as i128]),
+                    Err(_) => res(&[3]),
+                }
+            }
+            14 => {
+                cx.st.received_stop_sending(sid, vi(a(2)));
+                res(&[0])
+            }
+            15 => {
+                names_stream = false;
+                let mut buf = Vec::new();
+                let metas = cx.st.write_stream_frames(&mut buf, 1 << 20, true);
+                let mut ms: Vec<frame::StreamMeta> = metas.into_iter().collect();
+                ms.sort_by_key(|m| (u64::from(m.id), m.offsets.start, m.offsets.end, m.fin));
+                for m in &ms {
+                    list.extend([
+                        u64::from(m.id) as i128,
+                        m.offsets.start as i128,
+                        m.offsets.end as i128,
+                        m.fin as i128,
+                    ]);
+                }
+                let n = ms.len();
+                for m in ms {
+                    cx.log.push((m, 0));
+                }
+                res(&[0, n as i128])
+            }
+            16 | 19 => {
+                names_stream = false;
+                if cx.log.is_empty() {
+                    res(&[2])
+                } else {
+                    let k = (a(1) as usize) % cx.log.len();
+                    if cx.log[k].1 != 0 {
+                        res(&[3])
+                    } else {
+                        let m = cx.log[k].0.clone();
+                        let o = res(&[
+                            0,
+                            u64::from(m.id) as i128,
+                            m.offsets.start as i128,
+                            m.offsets.end as i128,
+                            m.fin as i128,
+                        ]);
+                        if op[0] == 16 {
+                            cx.log[k].1 = 1;
+                            cx.st.received_ack_of(m);
+                        } else {
+                            cx.log[k].1 = 2;
+                            cx.st.retransmit(m);
+                        }
+                        o
+                    }
+                }
+            }
+            17 => {
+                cx.st.reset_acked(sid);
+                res(&[0])
+            }
+            18 => {
+                names_stream = false;
+                match cx.st.poll() {
+                    None => res(&[0]),
+                    Some(StreamEvent::Opened { dir }) => res(&[1, dir as i128]),
+                    Some(StreamEvent::Readable { id }) => res(&[2, u64::from(id) as i128]),
+                    Some(StreamEvent::Writable { id }) => res(&[3, u64::from(id) as i128]),
+                    Some(StreamEvent::Finished { id }) => res(&[4, u64::from(id) as i128]),
+                    Some(StreamEvent::Stopped { id, error_code }) => res(&[
+                        5,
+                        u64::from(id) as i128,
+                        error_code.into_inner() as i128,
+                    ]),
+                    Some(StreamEvent::Available { dir }) => res(&[6, dir as i128]),
+                }
+            }
+            _ => {
+                outs.push(vec![-1]);
+                continue;
+            }
+        };
+        let mut o = r;
+        o.extend(cx.global());
+        if names_stream {
+            o.extend(cx.stream(sid));
+        }
+        o.extend(list);
+        outs.push(o);
+    }
+    outs
+}
+
+pub(crate) fn run(comp: &str, ops: &Ops) -> Option<Outs> {
+    match comp {
+        "flow_recv" => Some(interp(ops)),
+        _ => None,
+    }
 }
